@@ -183,6 +183,29 @@ def run_labels(cfg, tier):
                 else:
                     viol.append(z3.BoolVal(True))
         neg = z3.Or(*viol) if viol else z3.BoolVal(False)
+        if cfg["mac"] == "real":
+            # model-search hints (a model found under a hint is a model of the plain query): shapes that tell a conjugated
+            # from a non-conjugated product apart, and collinear shapes
+            found = False
+            for h0, h1 in (([1, 1j], [1, -1j]), ([1, 1j], [1, 1j]), ([1, 0.5j], [1 + 0j, 0.5j]), ([1, 1], [1, -1])):
+                hint = []
+                for i in range(R):
+                    for j, hv in ((0, h0), (C - 1, h1)):
+                        for c in range(nch):
+                            hint += [Phi[i, j, c].re == float(np.real(hv[c])), Phi[i, j, c].im == float(np.imag(hv[c]))]
+                r_, m_ = e.query(neg, *hint, timeout_ms=5000)
+                if r_ == z3.sat:
+                    tally.obligations += 1
+                    tally.reach = True
+                    c_ = cex(cfg, st, m_, None, None)
+                    tally.cex.append(c_)
+                    if c_.get("reproduced"):
+                        tally.stop = True
+                        e.halt = True
+                    found = True
+                    break
+            if found:
+                continue
         tally.decide(e, neg, on_sat=lambda m: cex(cfg, st, m, None, None), label=f"Lab={Lab.tolist()}")
     return tally.result(ex)
 
